@@ -412,5 +412,68 @@ pub fn families() -> Vec<Box<dyn Family>> {
                 check_input(&t, cfg.tiny, out);
             },
         ),
+
+        family(
+            "deep_many_tokens",
+            "STACK DEPTH: texts of 100000..400000 short lines (and of that many words / characters) through every tokenizer, str and [u8]; run with the stack of an ordinary thread in the small-stack stage (an unoptimised build): the tokenizer must return (losslessly) and not exhaust the stack",
+            false,
+            1,
+            |cfg| if cfg.tiny { 1 } else { cfg.tier.pick(4, 12) },
+            |idx, cfg, out| {
+                let mut rng = Rng::for_case(cfg.seed, "c06.deep", idx);
+                let lines = if cfg.tiny { 20 } else { rng.range(100_000, 400_000) };
+                let mut t: Vec<u8> = Vec::with_capacity(lines * 6);
+                for i in 0..lines {
+                    match (i + idx as usize) % 5 {
+                        0 => t.extend_from_slice(b"ab cd\n"),
+                        1 => t.extend_from_slice(b"x\r\n"),
+                        2 => t.extend_from_slice(b"\n"),
+                        3 => t.extend_from_slice("é y\n".as_bytes()),
+                        _ => t.extend_from_slice(b"k=1;\r"),
+                    }
+                }
+                out.sample(|| format!("{} lines, {} bytes", lines, t.len()));
+                out.nontrivial(&(lines, idx));
+                out.count("deep_cases");
+                let s = std::str::from_utf8(&t).unwrap();
+                for which in 0..6usize {
+                    // the unicode segmenters are slow in unoptimised builds: a 1/16 prefix (still tens of thousands of tokens)
+                    let cut = if which >= 4 { t.len() / 16 } else { t.len() };
+                    let cut = (0..=cut).rev().find(|c| s.is_char_boundary(*c)).unwrap_or(0);
+                    for as_str in [true, false] {
+                        if !as_str && !cfg!(feature = "bytes") {
+                            continue;
+                        }
+                        out.eval();
+                        let r = guard(|| {
+                            #[cfg(feature = "bytes")]
+                            let toks: Vec<&[u8]> = if as_str { tokenize_str(which, &s[..cut]).into_iter().map(|x| x.as_bytes()).collect() } else { tokenize_bytes(which, &t[..cut]) };
+                            #[cfg(not(feature = "bytes"))]
+                            let toks: Vec<&[u8]> = tokenize_str(which, &s[..cut]).into_iter().map(|x| x.as_bytes()).collect();
+                            let total: usize = toks.iter().map(|x| x.len()).sum();
+                            let empty = toks.iter().filter(|x| x.is_empty()).count();
+                            let joined_ok = total == cut && {
+                                let mut pos = 0;
+                                toks.iter().all(|x| {
+                                    let ok = &t[pos..pos + x.len()] == *x;
+                                    pos += x.len();
+                                    ok
+                                })
+                            };
+                            (toks.len(), empty, joined_ok)
+                        });
+                        match r {
+                            Err(p) => out.violation("panic", format!("tokenizer #{} ({}) panicked on {} lines: {}", which, if as_str { "str" } else { "[u8]" }, lines, p)),
+                            Ok((n, empty, ok)) => {
+                                out.count_n("tokens_observed", n as u64);
+                                if empty > 0 || !ok {
+                                    out.violation("tok.not_lossless", format!("tokenizer #{} ({}) on {} lines: {} empty tokens, concatenation equals the input: {}", which, if as_str { "str" } else { "[u8]" }, lines, empty, ok));
+                                }
+                            }
+                        }
+                    }
+                }
+            },
+        ),
     ]
 }
